@@ -798,8 +798,12 @@ def _grp(i, kids, tock=0.0, always=False):
 
 # pre-finding F46 exactly as in DESIGN §7, and relatives
 F46_WITNESS = ("run", 1.0, 0.0, None, [], [_grp(9, [_lf(1, [0.0, 2.5, 0.0, 0.0])]), _lf(2, [0.0] * 7, "plain")])
+# known finding C04-K2 = model theorem transparent_under_lagging_dodoer_fails: DoDoer 7 (tock 3) under a Doist with tock 2 comes round
+# at 0, 4, 6, 10, 12 ...; the transparent group 9 inside it is due at tyme + 3 and skips the recurs at 6 and 12
+K2_WITNESS = ("run", 2.0, 0.0, None, [], [_grp(7, [_grp(9, [_lf(1, [1.0] * 5)])], 3.0)])
 TIMING_CORPUS = [
     F46_WITNESS,
+    K2_WITNESS,
     flatten_case(F46_WITNESS),
     # same, None instead of 0.0, generator-recur shape, two levels of nesting, non-dyadic tock, start != 0
     ("run", 0.1, 0.3, None, [], [_grp(9, [_grp(8, [_lf(1, [None, 0.25, None], "genrecur")]), _lf(3, [0.3, 0.3])]), _lf(2, [0.0] * 5, "plain")]),
